@@ -664,7 +664,7 @@ func (e *Engine) writeEvidence(prop string, hs []*ssa.Function, wall time.Durati
 
 func newEngine() *Engine {
 	e := &Engine{repoDir: "/repo", verifDir: "/verif", tier: "quick", sizes: types.SizesFor("gc", "amd64"),
-		stats: &Stats{}, maxVisits: 200000, maxSteps: 20000000, unwind: 64, forkMinMax: true, workers: runtime.NumCPU(),
+		stats: &Stats{}, maxVisits: 5000000, maxSteps: 100000000, unwind: 64, forkMinMax: true, workers: runtime.NumCPU(),
 		bounds: map[string]int64{}, obligations: map[string]*oblStat{}, inconcl: map[string]int{}, stubCache: map[string]*ssa.Function{},
 		choices: map[string]map[int]int{}, funcsRun: map[string]int{}, intrUsed: map[string]bool{}, accelLoops: map[string]bool{},
 		reached: map[string]bool{}, violations: map[string]*Violation{}, confirmed: map[string]confirmation{}, earlyStop: true}
